@@ -11,6 +11,7 @@ import (
 	"github.com/spikeekips/mitum/isaac"
 	"github.com/spikeekips/mitum/util"
 	"pgregory.net/rapid"
+	"verif/internal/chain"
 	"verif/internal/ev"
 )
 
@@ -33,6 +34,7 @@ func TestC10(t *testing.T) {
 		"{none, reverse-merge, yield, even-late, drawn}. non-trivial: >=2 operations merged a value into the same suffrage/candidates state " +
 		"key and >=2 distinct worker sizes with at least one >1 were used; distinct by (scenario, operation list, expels)")
 	r.Floor(int64(r.N(20, 300)))
+	r.MaxSamples(6)
 	r.Assume("every operation in a proposal satisfies IsValid (pool admission) and proposals carry unique operation and fact hashes (ProposalFact.IsValid)",
 		"INIT voteproofs carry only expels that pass isaac.IsValidVoteproofWithSuffrage, at most n-required of them",
 		"harness filler operations write disjoint keys (last-writer-wins on one key by two operations is outside the statement)",
@@ -40,6 +42,27 @@ func TestC10(t *testing.T) {
 
 	runs := r.N(6, 8)
 	perWorld := r.N(2, 3) // proposals per prior chain (building the chain costs as much as a few runs)
+
+	// ---- A. the suspected case of DESIGN section 9, deterministically: several candidate operations with different keys
+	// for the address of an expired candidate (plus joins/disjoins of distinct nodes), merged in opposite orders
+	t.Run("suspect", func(t *testing.T) {
+		for i, sc := range []baScenario{
+			{N: 3, Th: 67, Life: 1, Script: "expired2"},
+			{N: 4, Th: 67, Life: 2, Script: "mixed"},
+			{N: 2, Th: 100, Life: 1, Script: "replaced"},
+		} {
+			if !r.Mine(i) {
+				continue
+			}
+
+			w, err := baGetWorld(sc)
+			if err != nil {
+				t.Fatalf("harness: build prior chain %s: %+v", sc, err)
+			}
+
+			c10Suspect(t, r, w, sc)
+		}
+	})
 
 	r.Checks(32, 700)
 	r.ShrinkTime(60 * time.Second)
@@ -216,7 +239,7 @@ func c10Proposal(rt *rapid.T, r *ev.Rec, w *baWorld, sc baScenario, runs int, sa
 		}
 
 		fp := sc.String() + "#" + strings.Join(baDescs(ops), "|") + "#" + strings.Join(expeldesc, ",")
-		r.Case(fp, nontrivial, classes...)
+		defer r.Case(fp, nontrivial, classes...)
 
 		if nontrivial && r.WantSample() {
 			var os []string
@@ -354,4 +377,90 @@ func c10ExpiredTwoKeys(w *baWorld, ops []baOp) bool {
 	}
 
 	return false
+}
+
+// c10Suspect: two (three) candidate operations for one expired candidate's address with different keys.
+func c10Suspect(t *testing.T, r *ev.Rec, w *baWorld, sc baScenario) {
+	_, expired := w.activeCands()
+	if len(expired) < 1 {
+		t.Fatalf("harness: scenario %s has no expired candidate", sc)
+	}
+
+	x := expired[0].Node
+	salt := "c10-suspect-" + sc.String()
+
+	mk := func(i int, n base.LocalNode, class string) baOp {
+		return baOp{Kind: "candidate", Op: chain.CandidateOp(fmt.Sprintf("%s-%d", salt, i), n, n), Fetch: "ok", Target: n.Address().String(),
+			Key: n.Publickey().String(), Desc: fmt.Sprintf("candidate(%s:%s)", n.Address(), class)}
+	}
+
+	fresh := baFresh()
+	ops := []baOp{
+		mk(0, fresh[1], "fresh"),
+		mk(1, baAlias(x), "expired,aliaskey"),
+		mk(2, x, "expired"),
+		mk(3, fresh[0], "fresh"),
+		mk(4, baAlias(fresh[0]), "fresh,aliaskey"),
+	}
+
+	if err := baCheckOpsValid(w, ops); err != nil {
+		t.Fatalf("harness: %+v", err)
+	}
+
+	pr, err := baProposal(w, ops)
+	if err != nil {
+		t.Fatalf("harness: %+v", err)
+	}
+
+	n := len(ops)
+	rev := make([]int, n)
+	fwd := make([]int, n)
+
+	for i := range rev {
+		rev[i] = 2 + (n-i)*6
+		fwd[i] = 2 + i*6
+	}
+
+	optss := []baRunOpts{
+		{Workers: 1, WriterWorkers: 1, Noise: baNoise{Name: "none"}, FetchError: -1},
+		{Workers: 64, WriterWorkers: 64, Procs: 16, Noise: baNoise{Name: "reverse", Merge: rev}, FetchError: -1},
+		{Workers: 64, WriterWorkers: 1, Procs: 4, Noise: baNoise{Name: "forward", Merge: fwd}, FetchError: -1},
+		{Workers: 8, WriterWorkers: 8, Procs: 1, Noise: baNoise{Name: "reverse", Merge: rev, Result: fwd}, FetchError: -1},
+		{Workers: 2, WriterWorkers: 3, Procs: 16, Noise: baNoise{Name: "yield", Merge: []int{1, 1, 1, 1, 1}, State: 1}, FetchError: -1},
+		{Workers: 3, WriterWorkers: 64, Procs: 4, Noise: baNoise{Name: "reverse", Merge: rev}, FetchError: -1},
+	}
+
+	var first baResult
+
+	for i, o := range optss {
+		res, herr := baProcess(w, pr, ops, nil, o)
+		if herr != nil {
+			t.Fatalf("harness: %+v", herr)
+		}
+
+		if res.Err != nil {
+			t.Fatalf("harness: processing failed: %+v", res.Err)
+		}
+
+		if i == 0 {
+			first = res
+
+			continue
+		}
+
+		if !first.Manifest.Hash().Equal(res.Manifest.Hash()) {
+			r.Violation(t, "manifest-differs-"+c10Cause(first, res, []string{"hash", "states-tree"}),
+				"same proposal, same prior state (%s, height %d), different manifests\n run 0 (%s): %s\n run %d (%s): %s\n operations: %s\n %s",
+				sc, w.H, optss[0], first.manifestSig(), i, o, res.manifestSig(), strings.Join(baDescs(ops), " | "), c10StateDiff(first, res))
+		}
+	}
+
+	var verdicts []string
+	for i := range ops {
+		verdicts = append(verdicts, fmt.Sprintf("%s -> instate=%v %s", ops[i].Desc, first.InState[ops[i].fact()], first.Reason[ops[i].fact()]))
+	}
+
+	r.Sample(map[string]any{"kind": "suspected expired-candidate duplicate", "prior": w.Desc(), "operations_and_results": verdicts,
+		"candidates_after": c10RenderState(first.NewStates[isaac.SuffrageCandidateStateKey]), "runs": len(optss)})
+	r.Case("suspect#"+sc.String(), true, "suspect:deterministic-case", "script:"+sc.Script)
 }
